@@ -549,6 +549,29 @@ func checkC15(p *Program, r *Report) {
 					continue
 				}
 				if inline {
+					// the wipe is written out in Zero itself and works on loads of the field: a store to the field that
+					// can run before one of those loads makes the loop wipe the new value, not the old buffer
+					for _, lb := range zeroFn.Blocks {
+						for j, lin := range lb.Instrs {
+							lv, isV := lin.(ssa.Value)
+							if !isV || !isFieldLoad(lv, f) {
+								continue
+							}
+							after := (lb == b && j > i) || (lb != b && reachableFrom(b, nil)[lb])
+							if lb == b && j < i && reachableFrom(b, nil)[b] {
+								// same block in a cycle
+								for _, su := range b.Succs {
+									if reachableFrom(su, nil)[b] {
+										after = true
+									}
+								}
+							}
+							if after {
+								okAll = false
+								how = "field " + f + " is overwritten at " + p.Pos(s.Pos()) + " before its old buffer is wiped"
+							}
+						}
+					}
 					continue
 				}
 				before := false
